@@ -250,6 +250,8 @@ def cases(shard, tier):
                     out = [i for i in out if cfg["defs"][i]["dir"] != cfg["root"]] + [i for i in out if cfg["defs"][i]["dir"] == cfg["root"]][:3]
                 for i in out:
                     yield {"config": shard["config"], "op": op, "targets": tsel, "outside": i, **({"few": True} if big else {})}
+                    if not big:  # the same under strict=True (a flag of the call, not of the closure)
+                        yield {"config": shard["config"], "op": op, "targets": tsel, "outside": i, "few": True, "strict": True}
     else:
         for k, (name, cfg) in enumerate(graph_configs()):
             if k % shard["parts"] != shard["part"]:
@@ -282,7 +284,7 @@ def get_config(name):
     return all_configs()[name]
 
 
-def run(base, cfg, op, tsel):
+def run(base, cfg, op, tsel, strict=False):
     del _opened[:]
     prints = []
 
@@ -292,11 +294,11 @@ def run(base, cfg, op, tsel):
     try:
         with engine.deadline(30):
             if op == "rn":
-                res = pydsdl.read_namespace(base / cfg["root"], [base / x for x in cfg["lookups"]], handler, allow_unregulated_fixed_port_id=True)
+                res = pydsdl.read_namespace(base / cfg["root"], [base / x for x in cfg["lookups"]], handler, allow_unregulated_fixed_port_id=True, strict=strict)
                 out = {"ok": [dump.composite(t) for t in res]}
             else:
                 targets = [cfg["defs"][i] for i in tsel]
-                d, t = pydsdl.read_files([base / N.file_of(x) for x in targets], [base / x for x in sorted({y["dir"] for y in targets})], [base / x for x in [cfg["root"]] + cfg["lookups"]], handler, allow_unregulated_fixed_port_id=True)
+                d, t = pydsdl.read_files([base / N.file_of(x) for x in targets], [base / x for x in sorted({y["dir"] for y in targets})], [base / x for x in [cfg["root"]] + cfg["lookups"]], handler, allow_unregulated_fixed_port_id=True, strict=strict)
                 out = {"ok": [[dump.composite(x) for x in d], [dump.composite(x) for x in t]]}
     except pydsdl.Error as ex:
         out = {"error": [type(ex).__name__, api.rel(base, ex.path), ex.line]}
@@ -375,7 +377,8 @@ def check_case(case, R: engine.Acc):
         ws.write_tree(base, files)
         for d in [cfg["root"]] + cfg["lookups"]:
             (base / d).mkdir(parents=True, exist_ok=True)
-        ref_out, ref_prints, ref_opened = run(base, cfg, case["op"], case["targets"])
+        strict = bool(case.get("strict"))
+        ref_out, ref_prints, ref_opened = run(base, cfg, case["op"], case["targets"], strict)
         if vfile in ref_opened:
             R.violation("outside-file-opened", "a definition outside the closure is never opened", {**case, "replacement": None}, observed=ref_opened)
             return
@@ -395,8 +398,8 @@ def check_case(case, R: engine.Acc):
                     f.write(text)
             one = {k: v for k, v in case.items() if k != "few"}
             one["replacement"] = ri
-            R.case([case["config"], case["op"], case["targets"], case["outside"], ri], nontrivial=(text != original), sample=(ri == 22 and len(R.samples) < 3))
-            out, prints, opened = run(base, cfg, case["op"], case["targets"])
+            R.case([case["config"], case["op"], case["targets"], case["outside"], ri, strict], nontrivial=(text != original), sample=(ri == 22 and len(R.samples) < 3))
+            out, prints, opened = run(base, cfg, case["op"], case["targets"], strict)
             if out != ref_out:
                 R.outcome("influenced")
                 kind = "error" if "error" in out else "result"
